@@ -55,7 +55,7 @@ Definition res_eqb (a b : bool * option Z) : bool :=
 Definition est_eqb (a b : Z * Z) : bool := (fst a =? fst b) && (snd a =? snd b).
 Definition obs_eqb (a b : obs) : bool :=
   match o_res a, o_res b with
-  | None, None => true                     (* commands before a panic are not compared *)
+  | None, None => list_eqb ocmd_eqb (o_cmds a) (o_cmds b)
   | Some x, Some y =>
       res_eqb x y && list_eqb ocmd_eqb (o_cmds a) (o_cmds b) && opt_eqb est_eqb (o_est a) (o_est b)
   | _, _ => false
@@ -85,24 +85,25 @@ Section Run.
   Definition run_event (k : fkind) (s : fstate) (e : event) (replies : list reply)
     : option fstate * list reply * obs :=
     let c := mk_clk replies [] in
-    let finish (r : outcome (fstate * clk * fupdate)) :=
-      match r with
-      | Ok (s', c', u) =>
-          (Some s', c_replies c', mk_obs (map ocmd_of (rev (c_log c'))) (Some u) (filter_estimates k s'))
-      | Panic _ => (None, [], mk_obs [] None None)
+    let finish (r : clk * outcome (fstate * fupdate)) :=
+      let '(c', o) := r in
+      let cmds := map ocmd_of (rev (c_log c')) in
+      match o with
+      | Ok (s', u) => (Some s', c_replies c', mk_obs cmds (Some u) (filter_estimates k s'))
+      | Panic _ => (None, [], mk_obs cmds None None)
       end in
     match k, s, e with
     | FKalman cfg, SK ks, EMeas m =>
-        finish (let! (s', c', u) := kalman_measurement exp_fn dbg cfg ks m c in Ok (SK s', c', u))
+        finish ((let* (s', u) := kalman_measurement exp_fn dbg cfg ks m in mret (SK s', u)) c)
     | FKalman cfg, SK ks, EUpdate =>
-        finish (let! (s', c', u) := kalman_update dbg cfg ks c in Ok (SK s', c', u))
+        finish ((let* (s', u) := kalman_update dbg cfg ks in mret (SK s', u)) c)
     | FKalman cfg, SK ks, EDemob =>
-        finish (let! c' := kalman_demobilize dbg cfg ks c in
-                let! s' := kalman_new cfg in Ok (SK s', c', fupdate_default))
+        finish ((let* _ := kalman_demobilize dbg cfg ks in
+                 let* s' := mlift (kalman_new cfg) in mret (SK s', fupdate_default)) c)
     | FBasic g, SB bs, EMeas m =>
-        finish (let! (s', c', u) := basic_measurement dbg bs m c in Ok (SB s', c', u))
-    | FBasic g, SB bs, EUpdate => finish (Ok (SB bs, c, fupdate_default))
-    | FBasic g, SB bs, EDemob => finish (Ok (SB (basic_new g), c, fupdate_default))
+        finish ((let* (s', u) := basic_measurement dbg bs m in mret (SB s', u)) c)
+    | FBasic g, SB bs, EUpdate => finish (c, Ok (SB bs, fupdate_default))
+    | FBasic g, SB bs, EDemob => finish (c, Ok (SB (basic_new g), fupdate_default))
     | _, _, _ => (None, [], mk_obs [] None None)
     end.
 
@@ -237,11 +238,7 @@ Fixpoint first_bad_basic (os : list obs) (n : nat) : option nat :=
 Definition basic_zero_over_zero (dbg : bool) (s : bstate) (m : meas) : bool :=
   match b_last_step s, m_offset m with
   | Some (l_time, l_offset, l_corr), Some offset =>
-      match (let! d1 := t_diff dbg (m_time m) l_time in
-             let! d2 := d_sub dbg d1 l_corr in
-             let! t1 := t_sub_d dbg (m_time m) offset in
-             let! t2 := t_sub_d dbg l_time l_offset in
-             let! d3 := t_diff dbg t1 t2 in Ok (d2, d3)) with
+      match basic_intervals dbg (m_time m) offset l_time l_offset l_corr with
       | Ok (d2, d3) => (d2 =? 0) && (d3 =? 0)
       | Panic _ => false
       end
